@@ -1,6 +1,8 @@
 """C09 - scope completion fires exactly once, after the whole subtree has been left.
 
-Scope trees of up to 5 nodes (async and sync scopes, completion callbacks sync / async / raising). Every
+Scope trees of up to 5 nodes (async and sync scopes, completion callbacks sync / async / raising; leaf async scopes
+may fail to enter because a disposable raises in __aenter__ - they were constructed under their parent and are left at
+once). Every
 non-root node is placed in its parent's task (inline), in a ctx.spawn'ed task, or in a plain
 asyncio.create_task task that is never joined and may outlive the parent - so it may enter its scope before
 or after the parent was left. Every enter and every exit is preceded by a gate; the scheduler enumerates the
@@ -45,7 +47,7 @@ ASSUMPTIONS = [
     "a scope constructed after its parent's completion already fired cannot delay that completion: only no-failure, once, stable and its own ordering are judged for it",
     "scopes constructed but never entered are not generated; relative order of sibling completions and the delay between last exit and callback (before quiescence) are unspecified",
 ]
-MINIMUMS = {"monitor:once": 20000, "monitor:after-subtree": 20000, "child_left_after_parent": 3000, "late_children": 300, "set:schedules": 4000, "async_callbacks": 2000}
+MINIMUMS = {"failed_enters": 300, "monitor:once": 20000, "monitor:after-subtree": 20000, "child_left_after_parent": 3000, "late_children": 300, "set:schedules": 4000, "async_callbacks": 2000}
 JOBS = {"quick": 4, "thorough": 16}
 LEVEL_TEXT = (
     "All trees of up to 3 nodes x node kinds x placements are run under every linearisation of their gated enters/exits (DFS, capped), 4-5 node trees with mixed callback kinds "
@@ -94,7 +96,12 @@ def build(tree: dict[str, Any]) -> list[dict[str, Any]]:
             else:
                 body.append({"op": "spawn", "via": "ctx" if places[c] == "spawn" else "asyncio", "name": f"task{c}", "owner": None, "body": [{"op": "gate", "label": f"n{c}.start"}, blk]})
         body.append({"op": "gate", "label": f"{name}.out"})
-        return {"op": "block", "kind": kinds[i], "name": name, "supply": [], "body": body, "completion": cbs[i], "catch": True}
+        b: dict[str, Any] = {"op": "block", "kind": kinds[i], "name": name, "supply": [], "body": body, "completion": cbs[i], "catch": True}
+        if (tree.get("fails") or [False] * n)[i] and kinds[i] == "ascope" and not kids[i]:
+            # entering this scope fails (a disposable raises in __aenter__, possibly after suspending): the scope was constructed
+            # under its parent and is left at once - the parent must still be able to complete
+            b["disposables"] = [{"yield": [], "enter": "gate-raise" if i % 2 else "raise", "exit": "ok"}]
+        return b
 
     return [node(0)]
 
@@ -195,6 +202,9 @@ def judge(R: Recorder, tree: dict[str, Any], chooser: Chooser, out: dict[str, An
     R.count("child_left_after_parent", left_after_parent)
     R.count("late_children", late)
     R.count("async_callbacks", sum(1 for cb in tree["callbacks"] if cb.startswith("async")))
+    fails = tree.get("fails") or [False] * n
+    kids_of = {i: [c for c in range(n) if parents[c] == i] for i in range(n)}
+    failed_enter = {f"n{i}" for i in range(n) if fails[i] and tree["kinds"][i] == "ascope" and not kids_of[i]}
     for i, name in enumerate(names):
         if ("construct", name) not in pos:
             continue  # never reached (should not happen)
@@ -209,7 +219,9 @@ def judge(R: Recorder, tree: dict[str, Any], chooser: Chooser, out: dict[str, An
             R.monitor("after-subtree", not early, where={**wi, "kind": "completion-before-subtree-left", "own_exit": f"n{i}" in early},
                       detail=f"{name}: completion at event {comps[0]} but {early} (in its subtree) left later / never; attached={attached}; events={ev}", case=rec)
         all_left = all(x is not None for x in sub_exits) and bool(exits)
-        if all_left:
+        if all_left and name in failed_enter:
+            R.monitor("eventually", None)  # a scope that was never entered: whether its own callback fires is unspecified
+        elif all_left:
             R.monitor("eventually", len(comps) >= 1, where={**wi, "kind": "completion-never-fired"}, detail=f"{name}: whole subtree {sub} left but no completion by quiescence; events={ev}", case=rec)
         if comps:
             e = ev[comps[0]]
@@ -218,7 +230,8 @@ def judge(R: Recorder, tree: dict[str, Any], chooser: Chooser, out: dict[str, An
             ok = in_cb[0] is True and later is not None and later[0] is True and later[1] == in_cb[1]
             R.monitor("stable", ok, where={**wi, "kind": "not-completed-in-callback" if in_cb[0] is not True else ("reopened-or-time-changed")},
                       detail=f"{name}: inside callback (is_completed, time)={in_cb}, read again later {later}", case=rec)
-    failed = {b: e for b, e in W.caught.items() if e is not None}
+    failed = {b: e for b, e in W.caught.items() if e is not None and b not in failed_enter}
+    R.count("failed_enters", len([b for b in failed_enter if W.caught.get(b) is not None]))
     R.monitor("no-exit-failure", not failed and out.get("program") == "ok", where={**w0, "kind": "exit-raised", "error": next((type(e).__name__ for e in failed.values()), None)},
               detail=f"blocks raised {failed!r} program={out.get('program')}; events={ev}", case=rec)
     if R.want_sample("late" if late else "tree") and left_after_parent:
@@ -232,11 +245,13 @@ def all_trees(tier: str, rng: random.Random):  # noqa: ANN201
                 for places in itertools.product(("inline", "spawn", "plain"), repeat=n - 1):
                     cbs = [("sync", "async")[(i + len(parents)) % 2] for i in range(n)]
                     yield {"parents": parents, "kinds": list(kinds), "places": ["root", *places], "callbacks": cbs}
+                    if n >= 2 and kinds[-1] == "ascope":
+                        yield {"parents": parents, "kinds": list(kinds), "places": ["root", *places], "callbacks": cbs, "fails": [False] * (n - 1) + [True]}
     for _ in range(SAMPLE[tier]):
         n = rng.choice([3, 4, 4, 5])
         parents = rng.choice(list(trees(n)))
         yield {"parents": parents, "kinds": [rng.choice(["ascope", "sscope"]) for _ in range(n)], "places": ["root"] + [rng.choice(["inline", "spawn", "plain", "plain"]) for _ in range(n - 1)],
-               "callbacks": [rng.choice(["sync", "async", "sync-raise", "async-raise", "sync"]) for _ in range(n)]}
+               "callbacks": [rng.choice(["sync", "async", "sync-raise", "async-raise", "sync"]) for _ in range(n)], "fails": [rng.random() < 0.25 for _ in range(n)]}
 
 
 def valid(tree: dict[str, Any]) -> bool:
